@@ -28,11 +28,11 @@ fn num(v: &Value) -> f64 {
 fn nums(c: &Value) -> Vec<f64> {
     c["n"].as_array().map(|a| a.iter().map(num).collect()).unwrap_or_default()
 }
-fn text(c: &Value) -> String {
+pub fn text(c: &Value) -> String {
     // "t": code points of the text handed to the API
     c["t"].as_array().map(|a| a.iter().map(|x| char::from_u32(x.as_u64().unwrap() as u32).unwrap()).collect()).unwrap_or_default()
 }
-fn name(c: &Value) -> String {
+pub fn name(c: &Value) -> String {
     String::from_utf8_lossy(&c["name"].as_array().map(|a| a.iter().map(|x| x.as_u64().unwrap() as u8).collect::<Vec<u8>>()).unwrap_or_default()).into_owned()
 }
 fn color(c: &Value) -> Color {
@@ -58,6 +58,13 @@ fn std_font(n: &str) -> Font {
 fn run_g(prog: &[Value]) -> Result<Vec<u8>, String> {
     let mut g = GraphicsContext::new();
     for c in prog {
+        g_call(&mut g, c)?;
+    }
+    Ok(g.operations().into_bytes())
+}
+
+pub fn g_call(g: &mut GraphicsContext, c: &Value) -> Result<(), String> {
+    {
         let n = nums(c);
         match c["c"].as_str().unwrap() {
             "move_to" => { g.move_to(n[0], n[1]); }
@@ -94,10 +101,10 @@ fn run_g(prog: &[Value]) -> Result<Vec<u8>, String> {
             other => tool_error(&format!("g call {other}")),
         }
     }
-    Ok(g.operations().into_bytes())
+    Ok(())
 }
 
-fn text_call(t: &mut TextContext, c: &Value) -> Result<(), String> {
+pub fn text_call(t: &mut TextContext, c: &Value) -> Result<(), String> {
     let n = nums(c);
     match c["c"].as_str().unwrap() {
         "set_font" => { t.set_font(std_font(&name(c)), n[0]); }
